@@ -349,17 +349,22 @@ theorem parent_supplied_code (given : List (Nat × String)) (gen : Nat → Strin
 /-- **for every history** of create / link / unlink / delete / reopen / copy operations in which `create_section` calls
 may supply ids (`runT`, what the driver runs): when the id texts the history supplies - as `Section.create_new` stores
 them, in whatever spelling - are ids, pairwise different and not the library-made id of a section of the final tree,
-those library-made ids are pairwise different ids, and nobody in the final metadata tree is named like one of these
+those library-made ids (of the sections whose id was not supplied) are pairwise different ids, and nobody in the final metadata tree is named like one of these
 texts, then `Section.parent` evaluated on the stored texts is the containing section (none at the top level) through
 every kind of handle -/
 theorem parent_history_code (gen : Nat → String) (ops : List OpT)
-    (genOK : ∀ a ∈ keysL (runT IdLookup.shape {} ops).f.sections, uuidAccepts (gen a) = true ∧
-      ∀ b ∈ keysL (runT IdLookup.shape {} ops).f.sections, gen a = gen b → a = b)
+    (genOK : ∀ a ∈ keysL (runT IdLookup.shape {} ops).f.sections,
+      (runT IdLookup.shape {} ops).given.lookup a = none →
+      uuidAccepts (gen a) = true ∧
+      ∀ b ∈ keysL (runT IdLookup.shape {} ops).f.sections,
+        (runT IdLookup.shape {} ops).given.lookup b = none → gen a = gen b → a = b)
     (hnd : (suppliedTexts IdLookup.shape ops).Nodup)
     (hu : ∀ t ∈ suppliedTexts IdLookup.shape ops, uuidAccepts t = true ∧
-      ∀ a ∈ keysL (runT IdLookup.shape {} ops).f.sections, t ≠ gen a)
+      ∀ a ∈ keysL (runT IdLookup.shape {} ops).f.sections,
+        (runT IdLookup.shape {} ops).given.lookup a = none → t ≠ gen a)
     (hn : ∀ n ∈ nodesL (runT IdLookup.shape {} ops).f.sections,
-      (∀ a ∈ keysL (runT IdLookup.shape {} ops).f.sections, n.name ≠ gen a) ∧
+      (∀ a ∈ keysL (runT IdLookup.shape {} ops).f.sections,
+        (runT IdLookup.shape {} ops).given.lookup a = none → n.name ≠ gen a) ∧
       ∀ t ∈ suppliedTexts IdLookup.shape ops, n.name ≠ t) (useCache : Bool) :
     let s := runT IdLookup.shape {} ops
     (∀ x ∈ s.f.sections,
@@ -554,14 +559,13 @@ private def exOps : List Ids.OpT :=
    .plain (.createSection (some 1) "a" "t"), .plain .reopen]
 /-- stand-in for the library-made ids of this example -/
 private def exGen : Nat → String
-  | 0 => "00000000-0000-4000-8000-000000000000"
   | 1 => "00000000-0000-4000-8000-000000000001"
-  | 2 => "00000000-0000-4000-8000-000000000002"
-  | 3 => "00000000-0000-4000-8000-000000000003"
   | 4 => "00000000-0000-4000-8000-000000000004"
-  | _ => "00000000-0000-4000-8000-00000000ffff"
+  | _ => ""
 
 private theorem exOps_f : (Ids.runT Generated.IdLookup.shape {} exOps).f = exSections := by rfl
+private theorem exOps_given : (Ids.runT Generated.IdLookup.shape {} exOps).given =
+    [(3, exTexts 3), (2, exTexts 2), (0, exTexts 0)] := by decide +kernel
 private theorem exOps_supplied :
     Ids.suppliedTexts Generated.IdLookup.shape exOps = [exTexts 0, exTexts 2, exTexts 3] := by decide +kernel
 
@@ -574,11 +578,11 @@ example : let s := Ids.runT Generated.IdLookup.shape {} exOps
   have names : ∀ n ∈ nodesL exSections.sections, n.name ∈ ["z", "a", "a", "a", "a"] :=
     fun n h => hn ▸ List.mem_map.mpr ⟨n, h, rfl⟩
   have h := parent_history_code exGen exOps
-    (by rw [exOps_f, hk]; decide +kernel)
+    (by rw [exOps_f, hk, exOps_given]; decide +kernel)
     (by rw [exOps_supplied]; decide +kernel)
-    (by rw [exOps_supplied, exOps_f, hk]; decide +kernel)
+    (by rw [exOps_supplied, exOps_f, hk, exOps_given]; decide +kernel)
     (by
-      rw [exOps_f, hk, exOps_supplied]
+      rw [exOps_f, hk, exOps_supplied, exOps_given]
       intro n hn'
       have := names n hn'
       revert this
